@@ -107,7 +107,7 @@ CHECKS = {
     },
     "C18": {
         "level": "exploration",
-        "tests": [{"name": "TestC18", "quick": 6000, "thorough": 1152000}, {"name": "TestC18Regress", "quick": 0}],
+        "tests": [{"name": "TestC18", "quick": 6000, "thorough": 1152000}, {"name": "TestC18Names", "quick": 1500, "thorough": 96000}, {"name": "TestC18Regress", "quick": 0}],
         "assumptions": COMMON_ASSUMPTIONS,
     },
     "C07": {
